@@ -39,10 +39,13 @@ type RespScript struct {
 	Reason  string `json:"reason,omitempty"`
 	Interim bool   `json:"interim103,omitempty"` // send "103 Early Hints" first
 	Header  []KV   `json:"header,omitempty"`     // end-to-end field lines, in order
-	Framing string `json:"framing"`              // cl | chunked | close | none (bodiless: no framing headers)
-	Body    []byte `json:"-"`
-	BodyLen int    `json:"body_len"`
-	Parts   []int  `json:"parts,omitempty"` // write partition of Body (sums to len(Body)); empty = one write
+	// Echo: names of request fields whose received values the backend copies into its response (one
+	// field line per received value), as services that echo a correlation ID do.
+	Echo    []string `json:"echo,omitempty"`
+	Framing string   `json:"framing"` // cl | chunked | close | none (bodiless: no framing headers)
+	Body    []byte   `json:"-"`
+	BodyLen int      `json:"body_len"`
+	Parts   []int    `json:"parts,omitempty"` // write partition of Body (sums to len(Body)); empty = one write
 	// Barrier: after writing part #BarrierAfter (0-based) the backend flushes and waits on the
 	// exchange's barrier channel before continuing (streaming sub-check). -1 = none.
 	BarrierAfter int `json:"barrier_after"`
@@ -305,6 +308,11 @@ func (b *RawBackend) play(c net.Conn, req *http.Request, s *RespScript, ex *exch
 	fmt.Fprintf(w, "HTTP/1.1 %d %s\r\n", s.Status, reason)
 	for _, kv := range s.Header {
 		fmt.Fprintf(w, "%s: %s\r\n", kv.K, kv.V)
+	}
+	for _, name := range s.Echo {
+		for _, v := range req.Header.Values(name) {
+			fmt.Fprintf(w, "%s: %s\r\n", name, v)
+		}
 	}
 	keepAlive = true
 	bodyAllowed := req.Method != "HEAD" && s.Status != 204 && s.Status != 304 && s.Status >= 200
